@@ -421,14 +421,26 @@ func runScenario(sc Scenario, hang time.Duration) RawObs {
 	if running > 0 {
 		// some handler is still running although its client is gone: is it allocating?
 		var h []int
-		for k := 0; k < 4; k++ {
+		for k := 0; k < 6; k++ {
 			if k > 0 {
-				time.Sleep(150 * time.Millisecond)
+				time.Sleep(100 * time.Millisecond)
 			}
 			h = append(h, liveHeapMB())
 		}
 		ob.HeapMB = h
-		ob.Growing = h[3]-h[0] >= 3 && h[2] >= h[0] && h[3] >= h[1]
+		// an append-grown slice is resident once or twice while it is being copied:
+		// compare the minima of the first and the last three samples
+		min3 := func(a, b, c int) int {
+			m := a
+			if b < m {
+				m = b
+			}
+			if c < m {
+				m = c
+			}
+			return m
+		}
+		ob.Growing = min3(h[3], h[4], h[5])-min3(h[0], h[1], h[2]) >= 3
 		ob.Poisoned = true // a stuck handler stays in this process: do not let it blur later scenarios
 	}
 	ob.FatalEvts = int(atomic.LoadInt64(&fatalEvents) - ev0)
